@@ -23,6 +23,45 @@ def _facts(ff, node):
     return {(norm(t), p) for t, p in facts_at(ff, node)}
 
 
+def _weighted_sum(fn, unit_func, lookup="var_lookup"):
+    """the inner function accumulates, over every keyword argument, <its value> * unit_func(<computation of that variable>), the
+    computation being slot 0 of lookup[<variable name>]; returns (accumulator name, ok)"""
+    loops = [l for l in fn.body if isinstance(l, ast.For)]
+    if len(loops) != 1:
+        return None, False
+    l = loops[0]
+    it = norm(l.iter)
+    if it == "kwargs" and isinstance(l.target, ast.Name):
+        key, val = l.target.id, f"kwargs[{l.target.id}]"
+    elif it == "kwargs.items()" and isinstance(l.target, ast.Tuple) and len(l.target.elts) == 2:
+        key, val = norm(l.target.elts[0]), norm(l.target.elts[1])
+    else:
+        return None, False
+    accs = [a for a in l.body if isinstance(a, ast.AugAssign) and isinstance(a.op, ast.Add) and isinstance(a.target, ast.Name)]
+    if len(accs) != 1 or any(isinstance(x, (ast.If, ast.Continue, ast.Break)) for x in ast.walk(l)):
+        return None, False
+    acc = accs[0]
+    v = acc.value
+    if not (isinstance(v, ast.BinOp) and isinstance(v.op, ast.Mult)):
+        return acc.target.id, False
+    sides = [v.left, v.right]
+    call = next((x for x in sides if isinstance(x, ast.Call) and norm(x.func) == unit_func and len(x.args) == 1), None)
+    other = next((x for x in sides if x is not call), None)
+    if call is None or other is None or norm(other) != val:
+        return acc.target.id, False
+    comp = call.args[0]
+    ok = False
+    if isinstance(comp, ast.Name):
+        for a in l.body:
+            if isinstance(a, ast.Assign) and isinstance(a.targets[0], ast.Tuple) and len(a.targets[0].elts) == 2 and norm(a.targets[0].elts[0]) == comp.id and norm(a.value) == f"{lookup}[{key}]" \
+                    and l.body.index(a) < l.body.index(acc):
+                ok = True
+    elif norm(comp) == f"{lookup}[{key}][0]":
+        ok = True
+    init = [a for a in fn.body if isinstance(a, ast.Assign) and norm(a.targets[0]) == acc.target.id and norm(a.value) in ("0", "0.0") and fn.body.index(a) < fn.body.index(l)]
+    return acc.target.id, ok and len(init) == 1
+
+
 def check(ctx: Ctx):
     repo = ctx.repo
     ctx.decided = ("every candidate-agent list built from replica holders removes the departed agents; orphans are exactly the "
@@ -125,8 +164,13 @@ def check(ctx: Ctx):
     rets = [r for r in ast.walk(h) if isinstance(r, ast.Return)]
     ok = len(rets) == 1 and isinstance(rets[0].value, ast.IfExp) and norm(rets[0].value.test) in ("s == 1", "1 == s") and norm(rets[0].value.body) == "0" \
         and isinstance(rets[0].value.orelse, ast.Constant) and rets[0].value.orelse.value > 0
+    if not ok:
+        # statement form: if <sum> == 1: return 0 else: return <positive>
+        ifs_ = [i for i in h.body if isinstance(i, ast.If)]
+        ok = len(ifs_) == 1 and norm(ifs_[0].test) in ("s == 1", "1 == s") and [norm(x) for x in ifs_[0].body] == ["return 0"] and len(ifs_[0].orelse) == 1 and isinstance(ifs_[0].orelse[0], ast.Return) \
+            and isinstance(ifs_[0].orelse[0].value, ast.Constant) and ifs_[0].orelse[0].value.value > 0
     sm = [n for n in ast.walk(h) if isinstance(n, ast.Assign) and norm(n.targets[0]) == "s"]
-    ok = ok and len(sm) == 1 and norm(sm[0].value) in ("sum([v for v in kwargs.values()])", "sum(kwargs.values())", "sum((v for v in kwargs.values()))")
+    ok = ok and len(sm) == 1 and norm(sm[0].value) in ("sum([v for v in kwargs.values()])", "sum(kwargs.values())", "sum((v for v in kwargs.values()))", "sum(list(kwargs.values()))")
     ctx.check(ok, "R-HOSTED", "0 iff the sum of all the computation's binary variables is exactly 1", hosted, rets[0] if rets else h,
               "`>= 1` or `<= 1` would accept duplicated or missing hosts")
     rel = [c for c in ast.walk(hosted.node) if isinstance(c, ast.Call) and call_name(c) == "NAryFunctionRelation"]
@@ -135,15 +179,16 @@ def check(ctx: Ctx):
     t = norm(c)
     rets = [r for r in ast.walk(c) if isinstance(r, ast.Return)]
     ok = len(rets) == 1 and isinstance(rets[0].value, ast.IfExp) and norm(rets[0].value.test) in ("repair_capa >= 0", "0 <= repair_capa") and norm(rets[0].value.body) == "0"
-    ok = ok and f"repair_capa = {capa.params[1]} - orphaned_footprint" in t and f"orphaned_footprint += kwargs[v_name] * {capa.params[2]}(comp)" in t \
-        and "comp, _ = var_lookup[v_name]" in t and "orphaned_footprint = 0" in t
+    accn, okw = _weighted_sum(c, capa.params[2])
+    ok = ok and okw and f"repair_capa = {capa.params[1]} - {accn}" in t
     ctx.check(ok, "R-CAPACITY", "0 iff remaining - sum(x * footprint(comp)) >= 0", capa, rets[0] if rets else c,
               "the selected computations' footprints must fit in the remaining capacity (equality allowed)")
     vl = [n for n in walk_no_nested(capa.node) if isinstance(n, ast.Assign) and norm(n.targets[0]) == "var_lookup"]
     ctx.check(len(vl) == 1 and norm(vl[0].value) == f"{{v.name: k for k, v in {capa.params[3]}.items()}}", "R-CAPACITY", "variable name -> (computation, agent) lookup", capa, vl[0] if vl else capa.node, "")
     hc = inner(hcost, "hosting_cost")
     t = norm(hc)
-    ctx.check(f"cost += kwargs[v_name] * {hcost.params[1]}(comp)" in t and "comp, _ = var_lookup[v_name]" in t and "cost = 0" in t and "return cost" in t, "R-SUMS",
+    accn, okw = _weighted_sum(hc, hcost.params[1])
+    ctx.check(okw and f"return {accn}" in t, "R-SUMS",
               "hosting cost = sum(x * hosting(comp))", hcost, hc, "")
     cc = inner(comm, "host_cost")
     t = norm(cc)
@@ -156,12 +201,13 @@ def check(ctx: Ctx):
     n_terms = 0
     for f_, fn_ in ((hcost, hc), (comm, cc)):
         for lp_ in [l for l in ast.walk(fn_) if isinstance(l, ast.For)]:
-            accs = [a for a in lp_.body if isinstance(a, ast.AugAssign) and isinstance(a.op, ast.Add)]
+            inner_loops = [x for x in ast.walk(lp_) if isinstance(x, ast.For) and x is not lp_]
+            accs = [a for a in ast.walk(lp_) if isinstance(a, ast.AugAssign) and isinstance(a.op, ast.Add) and not any(any(n is a for n in ast.walk(il)) for il in inner_loops)]
             if not accs:
                 continue
             n_terms += 1
             k_ = count_paths(lp_.body, lambda s_, accs=accs: 1 if s_ in accs else 0).k
-            ctx.check(k_.get("fall") == (len(accs), len(accs)) and "continue" not in k_ and "break" not in k_ and "return" not in k_, "R-SUMS",
+            ctx.check(k_.get("fall") == (1, 1) and len(accs) == 1 and "continue" not in k_ and "break" not in k_ and "return" not in k_, "R-SUMS",
                       f"{f_.qualname}: every element of `{norm(lp_.iter)}` contributes its term", f_, lp_,
                       "the cost is the sum over all the listed variables / neighbours: a `continue` (e.g. for a neighbour hosted on the same agent) removes terms from the sum, "
                       "which is wrong for a general communication function")
